@@ -456,6 +456,9 @@ class Ctx:
         os.makedirs(os.path.join(VERIF, "replays"), exist_ok=True)
         try:
             import gen
+            gen.settle_by_execution()
+            for item, msg in gen.SETTLED:
+                self.notes.append("translator: %s — %s" % (item, msg))
             for item, msg in gen.failures_for(self.prop):
                 self.broke("translator", "py/gen.py no longer recognises the source of `%s` (%s); the previously "
                            "generated definition was kept, so the theorems were checked against a stale table" % (item, msg),
